@@ -302,6 +302,39 @@ pub struct Case {
     pub settle: Duration,
     /// channels to close with `close_data_channel` once everything was delivered: (side, channel id)
     pub closes: Vec<(usize, u16)>,
+    /// how the run ends after everything (incl. `closes`) is done
+    pub end: End,
+}
+
+/// teardown at the end of a run
+#[derive(Clone, Copy, Debug, PartialEq)]
+pub enum End {
+    /// just stop observing
+    None,
+    /// `SctpTransport::close()` on this side
+    LocalClose(usize),
+    /// a datagram with one chunk of this type (6 ABORT, 7 SHUTDOWN, 8 SHUTDOWN-ACK, 14 SHUTDOWN-COMPLETE) handed to this side
+    Inject(usize, u8),
+}
+impl End {
+    pub fn text(&self) -> String { match self { End::None => "-".into(), End::LocalClose(s) => format!("close{}", ["A", "B"][*s]), End::Inject(s, t) => format!("inject{}{t}", ["A", "B"][*s]) } }
+    pub fn parse(t: &str) -> End {
+        if let Some(r) = t.strip_prefix("close") { return End::LocalClose(if r == "A" { 0 } else { 1 }); }
+        if let Some(r) = t.strip_prefix("inject") { let side = if r.starts_with('A') { 0 } else { 1 }; return End::Inject(side, r[1..].parse().unwrap_or(6)); }
+        End::None
+    }
+    /// the association is expected to be Closed on this side afterwards
+    pub fn closes_side(&self, side: usize) -> bool { match self { End::LocalClose(s) => *s == side, End::Inject(s, t) => *s == side && [6u8, 8, 14].contains(t), End::None => false } }
+}
+
+/// an SCTP datagram carrying one empty chunk of type `t` (correct CRC-32C; ports / tag as given)
+pub fn control_packet(src: u16, dst: u16, tag: u32, t: u8) -> Bytes {
+    let mut p = vec![];
+    p.extend_from_slice(&src.to_be_bytes()); p.extend_from_slice(&dst.to_be_bytes()); p.extend_from_slice(&tag.to_be_bytes());
+    p.extend_from_slice(&[0, 0, 0, 0]); p.extend_from_slice(&[t, 0, 0, 4]);
+    let c = crc32c::crc32c(&p).to_le_bytes();
+    p[8..12].copy_from_slice(&c);
+    Bytes::from(p)
 }
 
 #[derive(Clone, Debug)]
@@ -319,6 +352,8 @@ pub struct Outcome {
     pub send_errors: Vec<String>,
     pub elapsed_ms: u128,
     pub connected: bool,
+    /// the end action was carried out (the run did not hit its deadline before)
+    pub ended: bool,
 }
 
 fn count_msgs(ev: &[(u16, DataChannelEvent)]) -> usize {
@@ -336,6 +371,8 @@ pub async fn run_case(c: &Case, port_base: u16) -> Outcome {
     a.start();
     let send_errors = Arc::new(Mutex::new(Vec::<String>::new()));
     let mut started0 = [false, false];
+    let mut early_done = false;
+    let mut eager_started = false;
     let mut phase1_started = false;
     let mut closes_done = c.closes.is_empty();
     let has_phase1 = c.msgs.iter().any(|m| m.phase == 1);
@@ -372,9 +409,23 @@ pub async fn run_case(c: &Case, port_base: u16) -> Outcome {
         // submitted once its channel exists on that side
         let mut to_start: Vec<(usize, u8)> = vec![];
         for side in 0..2 { if !started0[side] && st[side] == SctpState::Connected { started0[side] = true; to_start.push((side, 0)); } }
-        if has_phase1 && !phase1_started && phase0_quiet { phase1_started = true; last_activity = Instant::now(); to_start.push((0, 1)); to_start.push((1, 1)); }
+        // eager tasks (id ≥ 200) do not wait for anything: they call send from the first moment on
+        if !eager_started { eager_started = true; to_start.push((0, 200)); to_start.push((1, 200)); }
+        // closes marked early (side + 2) are issued at the phase boundary, before the phase-1 traffic
+        let early_pending = has_phase1 && !phase1_started && phase0_quiet && !early_done && c.closes.iter().any(|(s, _)| *s >= 2);
+        if early_pending {
+            early_done = true;
+            for (side, id) in c.closes.iter().filter(|(s, _)| *s >= 2) {
+                let ep = if *side % 2 == 0 { &a } else { &b };
+                if let Err(e) = ep.sctp.close_data_channel(*id).await { send_errors.lock().push(format!("close ch{id}: {e}")); }
+            }
+            last_activity = Instant::now();
+        }
+        if has_phase1 && !phase1_started && phase0_quiet && !early_pending { phase1_started = true; last_activity = Instant::now(); to_start.push((0, 1)); to_start.push((1, 1)); }
         for (side, ph) in to_start {
-            let mut tasks: Vec<u8> = c.msgs.iter().filter(|m| m.side == side && m.phase == ph).map(|m| m.task).collect();
+            let eager = ph == 200;
+            let ph = if eager { 0 } else { ph };
+            let mut tasks: Vec<u8> = c.msgs.iter().filter(|m| m.side == side && m.phase == ph && (m.task >= 200) == eager).map(|m| m.task).collect();
             tasks.sort(); tasks.dedup();
             for task in tasks {
                 let msgs: Vec<Msg> = c.msgs.iter().filter(|m| m.side == side && m.phase == ph && m.task == task).cloned().collect();
@@ -385,6 +436,19 @@ pub async fn run_case(c: &Case, port_base: u16) -> Outcome {
                 sender_handles.push(tokio::spawn(async move {
                     for m in msgs {
                         let t = Instant::now();
+                        if eager {
+                            // an impatient application: calls send at once and again until it is accepted; whatever
+                            // send accepted (Ok) on a reliable channel has to arrive
+                            loop {
+                                match sctp.send_data(m.chan, &m.data).await {
+                                    Ok(()) => break,
+                                    Err(e) if t.elapsed() > Duration::from_secs(5) => { errs.lock().push(format!("send ch{}: {e}", m.chan)); return; }
+                                    Err(_) => tokio::time::sleep(Duration::from_millis(1)).await,
+                                }
+                            }
+                            tokio::task::yield_now().await;
+                            continue;
+                        }
                         // like an application: send only on a channel that has announced Open
                         while !chans.lock().iter().any(|w| w.upgrade().map(|d| d.id == m.chan
                             && d.state.load(std::sync::atomic::Ordering::SeqCst) == 1).unwrap_or(false)) {
@@ -421,7 +485,7 @@ pub async fn run_case(c: &Case, port_base: u16) -> Outcome {
         let done = senders_done && all_acked && link.quiet() && idle > c.settle;
         if done && !closes_done {
             closes_done = true;
-            for (side, id) in &c.closes {
+            for (side, id) in c.closes.iter().filter(|(s, _)| *s < 2) {
                 let ep = if *side == 0 { &a } else { &b };
                 if let Err(e) = ep.sctp.close_data_channel(*id).await { send_errors.lock().push(format!("close ch{id}: {e}")); }
             }
@@ -436,6 +500,30 @@ pub async fn run_case(c: &Case, port_base: u16) -> Outcome {
         tokio::time::sleep(Duration::from_millis(1)).await;
     }
     for h in &sender_handles { h.abort(); }
+    // teardown, observed: the run loop leaves, the cleanup guard announces Close on the channels
+    let mut ended = false;
+    if c.end != End::None && closes_done {
+        ended = true;
+        match c.end {
+            End::LocalClose(side) => { if side == 0 { a.sctp.close() } else { b.sctp.close() } }
+            End::Inject(side, t) => {
+                let (ep, peer) = if side == 0 { (&a, &b) } else { (&b, &a) };
+                let _ = ep.in_tx.send(control_packet(peer.port, ep.port, ep.sctp.verif_snapshot().local_tag, t));
+            }
+            End::None => {}
+        }
+        let t1 = Instant::now();
+        while t1.elapsed() < Duration::from_millis(60) {
+            for side in 0..2 {
+                loop {
+                    let pkt = { let ep = if side == 0 { &mut a } else { &mut b }; ep.out_rx.try_recv() };
+                    let Ok(pkt) = pkt else { break };
+                    for p in link.forward(side, pkt) { let peer = if side == 0 { &b } else { &a }; let _ = peer.in_tx.send(p); }
+                }
+            }
+            tokio::time::sleep(Duration::from_millis(1)).await;
+        }
+    }
     a.adopt_new();
     b.adopt_new();
     a.drain_events();
@@ -450,5 +538,5 @@ pub async fn run_case(c: &Case, port_base: u16) -> Outcome {
     a.shutdown();
     b.shutdown();
     Outcome { traces, wire: link.wire, events, snaps, chans_final, faults_used: link.used, send_errors: send_errors.lock().clone(),
-        elapsed_ms: t0.elapsed().as_millis(), connected }
+        elapsed_ms: t0.elapsed().as_millis(), connected, ended }
 }
